@@ -944,16 +944,86 @@ theorem decode_encodeInt (n : Int) (h : -two53 ≤ n ∧ n ≤ two53) : (decode 
       by_cases hn : n < 0 <;> simp [hn, smant] <;> omega
 
 
+/-! ## the number branch of janet_unwrap_s64 / janet_unwrap_u64 (window-generic) -/
+
+theorem castS64_of_fits (n : Int) (h : int64Min ≤ n ∧ n ≤ int64Max) : castS64 n = n := wrap_of_inRange .s64 n h
+theorem castU64_of_fits (n : Int) (h : 0 ≤ n ∧ n < two64) : castU64 n = n := wrap_of_inRange .u64 n h
+
+/-- a window inside the int64_t range: the branch raises, or returns exactly the integer the double denotes (the cast is exact) -/
+theorem numToS64W_exact (lo hi : Int) (hlo : int64Min ≤ lo) (hhi : hi ≤ int64Max) (d : Dbl) :
+    numToS64W lo hi d = none ∨ ∃ n, d.toInt? = some n ∧ Kind.s64.inRange n ∧ numToS64W lo hi d = some n := by
+  unfold numToS64W
+  cases h : d.toInt? with
+  | none => exact Or.inl rfl
+  | some n =>
+    by_cases hw : lo ≤ n ∧ n ≤ hi
+    · have hf : int64Min ≤ n ∧ n ≤ int64Max := ⟨by omega, by omega⟩
+      refine Or.inr ⟨n, rfl, hf, ?_⟩
+      simp only [if_pos hw, castS64_of_fits n hf]
+    · exact Or.inl (by simp only [if_neg hw])
+
+theorem numToU64W_exact (lo hi : Int) (hlo : 0 ≤ lo) (hhi : hi < two64) (d : Dbl) :
+    numToU64W lo hi d = none ∨ ∃ n, d.toInt? = some n ∧ Kind.u64.inRange n ∧ numToU64W lo hi d = some n := by
+  unfold numToU64W
+  cases h : d.toInt? with
+  | none => exact Or.inl rfl
+  | some n =>
+    by_cases hw : lo ≤ n ∧ n ≤ hi
+    · have hf : 0 ≤ n ∧ n < two64 := ⟨by omega, by omega⟩
+      refine Or.inr ⟨n, rfl, hf, ?_⟩
+      simp only [if_pos hw, castU64_of_fits n hf]
+    · exact Or.inl (by simp only [if_neg hw])
+
+/-- what the windows decide: accepted exactly when the double is an integer inside the window -/
+theorem numToW_some_iff (lo hi : Int) (d : Dbl) (r : Int) :
+    (numToS64W lo hi d = some r ↔ ∃ n, d.toInt? = some n ∧ lo ≤ n ∧ n ≤ hi ∧ r = castS64 n) ∧
+    (numToU64W lo hi d = some r ↔ ∃ n, d.toInt? = some n ∧ lo ≤ n ∧ n ≤ hi ∧ r = castU64 n) := by
+  unfold numToS64W numToU64W
+  cases h : d.toInt? with
+  | none => simp
+  | some n =>
+    by_cases hw : lo ≤ n ∧ n ≤ hi
+    · simp only [if_pos hw, Option.some.injEq]
+      constructor <;> constructor
+      · intro e; exact ⟨n, rfl, hw.1, hw.2, e.symm⟩
+      · rintro ⟨m, hm, _, _, e⟩; cases hm; rw [e]
+      · intro e; exact ⟨n, rfl, hw.1, hw.2, e.symm⟩
+      · rintro ⟨m, hm, _, _, e⟩; cases hm; rw [e]
+    · simp only [if_neg hw]
+      constructor <;> constructor
+      · intro e; exact absurd e (by simp)
+      · rintro ⟨m, hm, h1, h2, _⟩; cases hm; exact absurd ⟨h1, h2⟩ hw
+      · intro e; exact absurd e (by simp)
+      · rintro ⟨m, hm, h1, h2, _⟩; cases hm; exact absurd ⟨h1, h2⟩ hw
+
+/-- **why the bound matters**: with the window "every integral double from `(double) INT64_MIN` to `(double) INT64_MAX`" — the
+    upper bound is 2^63, because INT64_MAX is not a double and rounds up — the double 2^63 is accepted and the cast leaves the
+    type: `(int/s64 9223372036854775808)` is INT64_MIN.  Likewise 2^64 for `(double) UINT64_MAX`: `(int/u64 18446744073709551616)` is 0. -/
+theorem unwrap_window_rounded_up_wraps :
+    (decode 0x43e0000000000000).toInt? = some two63 ∧
+    numToS64W (-two63) two63 (decode 0x43e0000000000000) = some int64Min ∧
+    (decode 0x43f0000000000000).toInt? = some two64 ∧
+    numToU64W 0 two64 (decode 0x43f0000000000000) = some 0 := by
+  refine ⟨by decide, by decide, by decide, by decide⟩
+
 theorem unwrap_ofInt (n : Int) (h : -two53 ≤ n ∧ n ≤ two53) :
     unwrapS (Val.ofInt n) = .ok n ∧ (0 ≤ n → unwrapU (Val.ofInt n) = .ok n) := by
   have hd := decode_encodeInt n h
-  consts
+  have hSi := (numToW_some_iff Gen.Int64.unwrapS64Lo Gen.Int64.unwrapS64Hi (decode (encodeInt n)) (castS64 n)).1
+  have hUi := (numToW_some_iff Gen.Int64.unwrapU64Lo Gen.Int64.unwrapU64Hi (decode (encodeInt n)) (castU64 n)).2
+  have h' : -9007199254740992 ≤ n ∧ n ≤ 9007199254740992 := h
   constructor
-  · simp only [unwrapS, Val.ofInt, numToS64, hd, Gen.Int64.intMinDouble, Gen.Int64.intMaxDouble]
-    rw [if_pos (by omega)]
+  · have e : numToS64 (decode (encodeInt n)) = some n := by
+      have := hSi.2 ⟨n, hd, by simp only [Gen.Int64.unwrapS64Lo]; omega, by simp only [Gen.Int64.unwrapS64Hi]; omega, rfl⟩
+      rw [castS64_of_fits n (by simp only [int64Min, int64Max]; omega)] at this
+      exact this
+    simp only [unwrapS, Val.ofInt, e]
   · intro h0
-    simp only [unwrapU, Val.ofInt, numToU64, hd, Gen.Int64.intMaxDouble]
-    rw [if_pos (by omega)]
+    have e : numToU64 (decode (encodeInt n)) = some n := by
+      have := hUi.2 ⟨n, hd, by simp only [Gen.Int64.unwrapU64Lo]; omega, by simp only [Gen.Int64.unwrapU64Hi]; omega, rfl⟩
+      rw [castU64_of_fits n (by simp only [two64]; omega)] at this
+      exact this
+    simp only [unwrapU, Val.ofInt, e]
 
 theorem toNumber_eval (c : Cfg) (N : NumOps) (v : Int) :
     (-two53 ≤ v ∧ v ≤ two53 → evalFn c N "int/to-number" [.s64 v] = .ok (Val.ofInt v)) ∧
